@@ -27,7 +27,8 @@ def replay_and_validate(tag, init, behaviours, shards=16, timeout=1800, seed=0):
     """behaviours: list of (hist, from).  Returns dict with fails (each with
     the behaviour attached), dones, counts."""
     os.makedirs(os.path.join(OUT, tag), exist_ok=True)
-    items = [(i + 1, h, f) for i, (h, f) in enumerate(behaviours)]
+    # a behaviour may carry its own trace id (replays): the id salts the value representatives
+    items = [((b[2] if len(b) > 2 else i + 1), b[0], b[1]) for i, b in enumerate(behaviours)]
     if not items:
         raise MachineryError("no behaviours to replay for %s" % tag)
     n = max(1, min(shards, len(items)))
@@ -44,13 +45,14 @@ def replay_and_validate(tag, init, behaviours, shards=16, timeout=1800, seed=0):
     if missing:
         raise MachineryError("%d traces not consumed to the end by Trace.tla (first tid %d)"
                              % (len(missing), missing[0]))
+    by_tid = {it[0]: it for it in items}
     for d in dones:
-        hist = items[d["tid"] - 1][1]
+        hist = by_tid[d["tid"]][1]
         if d["n"] != len(hist):
             raise MachineryError("trace %d consumed to %d of %d" % (d["tid"], d["n"], len(hist)))
     for f in fails:
-        f["hist"] = items[f["tid"] - 1][1]
-        f["from"] = items[f["tid"] - 1][2]
+        f["hist"] = by_tid[f["tid"]][1]
+        f["from"] = by_tid[f["tid"]][2]
     nv = {}
     for d in dones:
         for c in d["nv"]:
